@@ -90,7 +90,7 @@ private theorem loop_contacted (select : List Nat → Option Nat) (outcome : Nat
             ∀ y ∈ contactedList (tr ++ [Ev.selected e, Ev.inc e] ++ attemptEvents e (outcome e) ++ [Ev.dec e] ++ suffix),
               y ∈ contactedList tr ∨ y ∈ avail := by
           intro suffix hsuf y hy
-          simp only [contacted_append, contactedList, List.append_nil, hsuf, List.mem_append, List.not_mem_nil, or_false] at hy
+          simp only [contacted_append, contactedList, List.append_nil, hsuf, List.mem_append] at hy
           rcases hy with hy | hy
           · exact Or.inl hy
           · exact Or.inr (by rw [contacted_attempt e _ y hy]; exact hmem)
@@ -156,29 +156,6 @@ theorem C14_failover_inside_subset (enabled : Bool) (support : Support) (transla
 
 /-! ### What each backend receives -/
 
-/-- **An endpoint without native support never receives an Anthropic-format body**: every
-    Anthropic-format delivery goes to a filtered endpoint whose lookup answers "enabled", and only with
-    passthrough on. -/
-theorem C14_never_anthropic_body_to_nonnative (enabled : Bool) (support : Support) (translate : List UInt8 → List UInt8) (valid : Bool)
-    (select : List Nat → Option Nat) (outcome : Nat → Attempt) (eps : List Ep) (body : List UInt8)
-    (hsel : SelectContract select) :
-    ∀ s ∈ (run enabled support translate valid select outcome eps body).sent, s.fmt = .anthropic →
-      enabled = true ∧ ∃ e ∈ eps, e.id = s.ep ∧ nativeBy support e.typ = true := by
-  intro s hs hfmt
-  obtain ⟨e, he, hid⟩ := C14_failover_inside_subset enabled support translate valid select outcome eps body hsel s hs
-  unfold run at hs
-  cases valid with
-  | false => simp at hs
-  | true =>
-    simp only [Bool.not_true, Bool.false_eq_true, ↓reduceIte, List.mem_map] at hs
-    obtain ⟨x, _, rfl⟩ := hs
-    cases hd : decideMode enabled eps support with
-    | translate all => simp [hd, Decision.isPassthrough] at hfmt
-    | passthrough sub =>
-      obtain ⟨h1, _, _, h4⟩ := C14_native_only enabled eps support sub hd
-      rw [hd] at he
-      exact ⟨h1, e, (h4 e he).1, hid, (h4 e he).2⟩
-
 /-- **A native endpoint chosen for passthrough never receives the translated body; the passthrough
     body is the client's bytes, byte-identical, on `/v1/messages`**: in passthrough mode every delivery
     — first attempt and every failover — carries exactly the client's body on PreparePassthrough's path. -/
@@ -211,6 +188,25 @@ theorem C14_translated_to_chat_path (enabled : Bool) (support : Support) (transl
     simp only [Bool.not_true, Bool.false_eq_true, ↓reduceIte, List.mem_map] at hs
     obtain ⟨x, _, rfl⟩ := hs
     simp [hd, Decision.isPassthrough]
+
+/-- **An endpoint without native support never receives an Anthropic-format body**: every
+    Anthropic-format delivery goes to a filtered endpoint whose lookup answers "enabled", and only with
+    passthrough on. -/
+theorem C14_never_anthropic_body_to_nonnative (enabled : Bool) (support : Support) (translate : List UInt8 → List UInt8) (valid : Bool)
+    (select : List Nat → Option Nat) (outcome : Nat → Attempt) (eps : List Ep) (body : List UInt8)
+    (hsel : SelectContract select) :
+    ∀ s ∈ (run enabled support translate valid select outcome eps body).sent, s.fmt = .anthropic →
+      enabled = true ∧ ∃ e ∈ eps, e.id = s.ep ∧ nativeBy support e.typ = true := by
+  intro s hs hfmt
+  obtain ⟨e, he, hid⟩ := C14_failover_inside_subset enabled support translate valid select outcome eps body hsel s hs
+  cases hd : decideMode enabled eps support with
+  | translate all =>
+    have := (C14_translated_to_chat_path enabled support translate valid select outcome eps body all hd s hs).1
+    rw [this] at hfmt; cases hfmt
+  | passthrough sub =>
+    obtain ⟨h1, _, _, h4⟩ := C14_native_only enabled eps support sub hd
+    rw [hd] at he
+    exact ⟨h1, e, (h4 e he).1, hid, (h4 e he).2⟩
 
 /-- **X-Olla-Mode says which path was taken**: the header is `passthrough` exactly when the request
     was forwarded in passthrough mode; in translation mode (and when Olla rejects the request itself)
@@ -260,22 +256,16 @@ theorem C14_spec_holds (enabled : Bool) (support : Support) (translate : List UI
       simp [← hid, hnat e hee hn]
     · simp only [noMixing, Run.observed, List.any_map, List.all_map, Bool.or_eq_true, Bool.not_eq_true', List.all_eq_true]
       right; intro s hs; simp [untranslated, hall s hs]
-    · simp only [modeHeaderTruthful, Run.observed, List.isEmpty_map, List.all_map]
-      have hpx : (run enabled support translate valid select outcome eps body).proxied = valid := by
-        unfold run; cases valid <;> simp
-      have hmh : (run enabled support translate valid select outcome eps body).modeHeader =
-          if valid then some "passthrough" else none := by
-        unfold run; cases valid <;> simp [hd, Decision.isPassthrough, hm]
-      rw [hmh, hpx]
-      cases valid with
-      | false => have : (run enabled support translate false select outcome eps body).sent = [] := by unfold run; simp
-                 simp [this]
+    · cases valid with
+      | false => simp [modeHeaderTruthful, Run.observed, run]
       | true =>
-        split
-        · simp
-        · have : ((run enabled support translate true select outcome eps body).sent.all (untranslated ∘ fun s => ⟨s.ep, s.path, s.fmt, s.body == body⟩)) = true := by
-            simp only [List.all_eq_true]; intro s hs; simp [untranslated, hall s hs]
-          simp [this]
+        have hmh : (run enabled support translate true select outcome eps body).modeHeader = some "passthrough" := by
+          unfold run; simp [hd, Decision.isPassthrough, hm]
+        have hut : ((run enabled support translate true select outcome eps body).sent.map
+            (fun s => (⟨s.ep, s.path, s.fmt, s.body == body⟩ : Delivery))).all untranslated = true := by
+          simp only [List.all_map, List.all_eq_true]; intro s hs; simp [untranslated, hall s hs]
+        simp only [modeHeaderTruthful, Run.observed, hmh, hut]
+        split <;> simp [run]
   | translate all =>
     have hb := C14_translated_to_chat_path enabled support translate valid select outcome eps body all hd
     have hall : ∀ s ∈ (run enabled support translate valid select outcome eps body).sent, s.fmt = Fmt.openai := fun s hs => (hb s hs).1
@@ -293,13 +283,23 @@ theorem C14_spec_holds (enabled : Bool) (support : Support) (translate : List UI
       left
       rw [List.any_eq_false]
       intro s hs; simp [untranslated, hall s hs]
-    · simp only [modeHeaderTruthful, Run.observed, List.isEmpty_map, List.all_map]
-      have hmh : (run enabled support translate valid select outcome eps body).modeHeader = none := by
+    · have hmh : (run enabled support translate valid select outcome eps body).modeHeader = none := by
         unfold run; cases valid <;> simp [hd, Decision.isPassthrough]
-      rw [hmh]
+      simp only [modeHeaderTruthful, Run.observed, hmh]
       split
       · split <;> simp
-      · split <;> simp
+      · rename_i hne
+        split
+        · rename_i hallu
+          exfalso
+          cases hl : (run enabled support translate valid select outcome eps body).sent with
+          | nil => simp [hl] at hne
+          | cons s rest =>
+            have hs : s ∈ (run enabled support translate valid select outcome eps body).sent := by simp [hl]
+            simp only [List.all_map, List.all_eq_true] at hallu
+            have := hallu s hs
+            simp [untranslated, hall s hs] at this
+        · simp
 
 /-! ### Instantiation at the regenerated profile table and constants -/
 
